@@ -413,11 +413,19 @@ def gen_cell_cfg(r, tier):
     l = r.choice([1, 2, 2, 3] if dim == 2 else [1, 2])
     a = [r.choice(DS.A_CHOICES) for _ in range(dim)]
     b = [a[d] + r.choice(DS.W_CHOICES) for d in range(dim)]
-    return {"dim": dim, "a": a, "b": b, "lmin": l, "lmax": l, "boundary": True, "margin": r.choice([0.0, 0.5, 0.9, 0.9, 1.0]),
-            "estimator": "keyed", "p_zero": r.choice([0.0, 0.2, 0.4, 0.7]), "p_tie": r.choice([0.0, 0.1, 0.3]),
-            "mode": r.choice(["mix"] * 8 + ["equal", "zero"]), "use_epoch": r.random() < 0.7, "nnoise": r.choice([1, 1, 2]),
-            "jump": r.random() < 0.3, "norm": r.choice([1, 2, "inf"]), "evals": r.randint(1, 5 if tier == "quick" else 8),
-            "max_leaves": 200 if tier == "quick" else 500, "max_points": 2500, "clock_jumps": r.random() < 0.3, "recalc": None}
+    cfg = {"dim": dim, "a": a, "b": b, "lmin": l, "lmax": l, "boundary": True, "margin": r.choice([0.0, 0.5, 0.9, 0.9, 1.0]),
+           "estimator": "keyed", "p_zero": r.choice([0.0, 0.2, 0.4, 0.7]), "p_tie": r.choice([0.0, 0.1, 0.3]),
+           "mode": r.choice(["mix"] * 8 + ["equal", "zero"]), "use_epoch": r.random() < 0.7, "nnoise": r.choice([1, 1, 2]),
+           "jump": r.random() < 0.3, "norm": r.choice([1, 2, "inf"]), "evals": r.randint(1, 5 if tier == "quick" else 8),
+           "max_leaves": 200 if tier == "quick" else 500, "max_points": 2500, "clock_jumps": r.random() < 0.3, "recalc": None}
+    if r.random() < 0.3:
+        # narrow boxes away from the origin, deep selective histories from the coarsest start: the cell tree's parent / child
+        # geometry is exercised where cell indices and coordinates differ most
+        cfg.update(dim=2, lmin=1, lmax=1, margin=r.choice([0.9, 0.9, 1.0]), p_zero=0.0, p_tie=0.0, mode="mix",
+                   evals=r.randint(4, 8 if tier == "quick" else 12))
+        cfg["a"] = [r.choice([2.0, -0.5, -1.0, 0.0, 5.0]) for _ in range(2)]
+        cfg["b"] = [x + r.choice([0.5, 0.5, 0.25]) for x in cfg["a"]]
+    return cfg
 
 
 class CellSim(ExtendSplitSim):
